@@ -130,6 +130,9 @@ type Opts struct {
 	InputName    string
 	CustomParam  interface{} // transformctx.Ctx.CustomParam (the yield function for verif_probe)
 	KeepOnlyLast int         // keep only the last N entries' payload (long runs); 0 keeps all
+	// SchemaRd, when set, is the reader NewSchema gets the schema bytes from (a simulated reader
+	// with its own delivery plan and faults) instead of a bytes.Reader.
+	SchemaRd io.Reader
 }
 
 func recoverTo(dst *string, stack *string) {
@@ -143,8 +146,13 @@ func recoverTo(dst *string, stack *string) {
 
 // NewSchema calls omniparser.NewSchema under recover.
 func NewSchema(name string, content []byte, exts ...omniparser.Extension) (s omniparser.Schema, errStr, panicStr string) {
+	return NewSchemaFrom(name, bytes.NewReader(content), exts...)
+}
+
+// NewSchemaFrom is NewSchema reading the schema from rd.
+func NewSchemaFrom(name string, rd io.Reader, exts ...omniparser.Extension) (s omniparser.Schema, errStr, panicStr string) {
 	defer recoverTo(&panicStr, nil)
-	s, err := omniparser.NewSchema(name, bytes.NewReader(content), exts...)
+	s, err := omniparser.NewSchema(name, rd, exts...)
 	if err != nil {
 		return nil, err.Error(), ""
 	}
@@ -226,7 +234,11 @@ func Drive(w *world.World, rd io.Reader, o Opts) *Transcript {
 	if name == "" {
 		name = "sim-input"
 	}
-	schema, es, ps := NewSchema("sim-schema", w.Schema, o.Exts...)
+	var srd io.Reader = bytes.NewReader(w.Schema)
+	if o.SchemaRd != nil {
+		srd = o.SchemaRd
+	}
+	schema, es, ps := NewSchemaFrom("sim-schema", srd, o.Exts...)
 	tr.SchemaErr, tr.SchemaPanic = es, ps
 	if schema == nil {
 		return tr
